@@ -17,6 +17,8 @@ Record Inv (st : state) : Prop := mkInv {
   inv_inj : forall f g, In f (st_fabs st) -> In g (st_fabs st) -> f_inc f = f_inc g -> f_idx f = f_idx g;
   (* every table entry carries the incarnation that a lookup of its index finds *)
   inv_idx : forall f, In f (st_fabs st) -> fab_live (st_fabs st) (f_idx f) (f_inc f);
+  (* fabric index 0 ("no fabric") is never in the table *)
+  inv_idx0 : fget 0 (st_fabs st) = None;
   (* every non-expired session on a fabric index, every record (RAM and persisted), every
      subscription refers to a live fabric of its own incarnation *)
   inv_sess : forall s, In s (st_sess st) -> s_exp s = false -> s_fab s <> 0 ->
@@ -77,7 +79,8 @@ Qed.
 Definition TInv (l : list fabric) (n : N) : Prop :=
   (forall f, In f l -> f_inc f < n) /\
   (forall f g, In f l -> In g l -> f_inc f = f_inc g -> f_idx f = f_idx g) /\
-  (forall f, In f l -> fab_live l (f_idx f) (f_inc f)).
+  (forall f, In f l -> fab_live l (f_idx f) (f_inc f)) /\
+  fget 0 l = None.
 
 Definition SInv (fabs : list fabric) (n : N) (l : list session) : Prop :=
   (forall s, In s l -> s_exp s = false -> s_fab s <> 0 -> fab_live fabs (s_fab s) (s_inc s)) /\
@@ -90,7 +93,10 @@ Definition keep_unres (keep : option N) (l : list session) : Prop :=
   forall y, In y l -> opt_is keep (s_id y) = true -> s_res y = false.
 
 Lemma Inv_TInv : forall st, Inv st -> TInv (st_fabs st) (st_ninc st).
-Proof. intros st H. split; [|split]; [apply (inv_fresh _ H)|apply (inv_inj _ H)|apply (inv_idx _ H)]. Qed.
+Proof.
+  intros st H. split; [|split; [|split]];
+    [apply (inv_fresh _ H)|apply (inv_inj _ H)|apply (inv_idx _ H)|apply (inv_idx0 _ H)].
+Qed.
 
 Lemma Inv_SInv : forall st, Inv st -> SInv (st_fabs st) (st_nsid st) (st_sess st).
 Proof.
@@ -107,21 +113,22 @@ Lemma Inv_build : forall st,
   (forall u, In u (st_subs st) -> fab_live (st_fabs st) (u_fab u) (u_inc u)) ->
   Inv st.
 Proof.
-  intros st (T1 & T2 & T3) Hkv (S1 & S2 & S3 & S4) Hr Hk Hu. constructor; assumption.
+  intros st (T1 & T2 & T3 & T4) Hkv (S1 & S2 & S3 & S4) Hr Hk Hu. constructor; assumption.
 Qed.
 
 Lemma TInv_fdel : forall l n j, TInv l n -> TInv (fdel j l) n.
 Proof.
-  intros l n j (T1 & T2 & T3). split; [|split].
+  intros l n j (T1 & T2 & T3 & T4). split; [|split; [|split]].
   - intros f Hf. apply In_fdel in Hf. apply T1. tauto.
   - intros f g Hf Hg. apply In_fdel in Hf, Hg. apply T2; tauto.
   - intros f Hf. apply In_fdel in Hf. destruct Hf as [Hf Hne]. apply live_fdel; auto.
+  - rewrite fget_fdel. destruct (0 =? j); [reflexivity|exact T4].
 Qed.
 
 Lemma TInv_add : forall l n idx r a,
-  TInv l n -> fget idx l = None -> TInv (l ++ [mkFabric idx n r a]) (n + 1).
+  TInv l n -> fget idx l = None -> idx <> 0 -> TInv (l ++ [mkFabric idx n r a]) (n + 1).
 Proof.
-  intros l n idx r a (T1 & T2 & T3) G. split; [|split].
+  intros l n idx r a (T1 & T2 & T3 & T4) G H0. split; [|split; [|split]].
   - intros f Hf. apply in_app_iff in Hf. destruct Hf as [Hf|[<-|[]]].
     + specialize (T1 f Hf). lia.
     + cbn [f_inc]. lia.
@@ -134,25 +141,29 @@ Proof.
   - intros f Hf. apply in_app_iff in Hf. destruct Hf as [Hf|[<-|[]]].
     + apply live_app. auto.
     + apply live_app_new. exact G.
+  - rewrite fget_app1, T4. cbn [f_idx]. destruct (idx =? 0) eqn:E; [exfalso; lia|reflexivity].
 Qed.
 
 Lemma TInv_replace : forall l n j fb nf,
   TInv l n -> fget j l = Some fb -> f_idx nf = j -> f_inc nf = f_inc fb ->
   TInv (fdel j l ++ [nf]) n.
 Proof.
-  intros l n j fb nf (T1 & T2 & T3) G Hi Hc.
+  intros l n j fb nf (T1 & T2 & T3 & T4) G Hi Hc.
   pose proof (fget_In _ _ _ G) as [Hfb Hfbi].
   assert (Hin : forall f, In f (fdel j l ++ [nf]) ->
             exists f0, In f0 l /\ f_idx f0 = f_idx f /\ f_inc f0 = f_inc f).
   { intros f Hf. apply in_app_iff in Hf. destruct Hf as [Hf|[<-|[]]].
     - apply In_fdel in Hf. exists f. tauto.
     - exists fb. repeat split; congruence. }
-  split; [|split].
+  split; [|split; [|split]].
   - intros f Hf. destruct (Hin f Hf) as (f0 & H0 & _ & <-). auto.
   - intros f g Hf Hg E. destruct (Hin f Hf) as (f0 & Hf0 & <- & Ef).
     destruct (Hin g Hg) as (g0 & Hg0 & <- & Eg). apply T2; congruence.
   - intros f Hf. destruct (Hin f Hf) as (f0 & Hf0 & <- & <-).
     eapply live_replace; eauto.
+  - assert (Hj : j <> 0) by (intro Ej; subst j; rewrite Ej in G; congruence).
+    rewrite fget_app1, fget_fdel_ne by congruence. rewrite T4.
+    destruct (f_idx nf =? 0) eqn:E; [exfalso; lia|reflexivity].
 Qed.
 
 Lemma kv_live : forall st i c kf,
@@ -164,7 +175,7 @@ Qed.
 
 Lemma TInv_kv : forall st, Inv st -> TInv (st_kvfabs st) (st_ninc st).
 Proof.
-  intros st H. split; [|split].
+  intros st H. split; [|split; [|split]].
   - intros kf Hk. destruct (live_In _ _ _ (inv_kv _ H kf Hk)) as (f & Hf & _ & <-).
     apply (inv_fresh _ H). exact Hf.
   - intros kf kg Hf Hg E.
@@ -173,6 +184,9 @@ Proof.
     apply (inv_inj _ H); congruence.
   - intros kf Hk. destruct (In_fget_some _ _ Hk) as (kg & G). exists kg. split; [exact G|].
     eapply kv_live; eauto. apply (inv_kv _ H). exact Hk.
+  - destruct (fget 0 (st_kvfabs st)) as [kf|] eqn:K; [|reflexivity]. exfalso.
+    destruct (fget_In _ _ _ K) as [Hk Hi]. destruct (inv_kv _ H kf Hk) as (f & G & _).
+    rewrite Hi, (inv_idx0 _ H) in G. discriminate G.
 Qed.
 
 (** ** Session tables *)
@@ -385,7 +399,7 @@ Proof.
                  fab_live (st_fabs st ++ [mkFabric idx (st_ninc st) (st_root st) 0]) i c).
   { intros i c. apply live_app. }
   assert (HT : TInv (st_fabs st ++ [mkFabric idx (st_ninc st) (st_root st) 0]) (st_ninc st + 1)).
-  { apply TInv_add; [apply Inv_TInv; exact H|apply next_idx_free; exact En]. }
+  { apply TInv_add; [apply Inv_TInv; exact H|apply next_idx_free; exact En|apply (next_idx_nonzero _ _ En)]. }
   assert (HS : SInv (st_fabs st ++ [mkFabric idx (st_ninc st) (st_root st) 0]) (st_nsid st) (st_sess st)).
   { eapply SInv_mono; [exact Hm|apply N.le_refl|]. apply Inv_SInv; exact H. }
   destruct (is_pase s); [destruct (s_fab s =? 0)|]; cbn [fst].
@@ -481,6 +495,122 @@ Proof.
     eapply kv_live; eauto. apply (inv_subs _ H); exact Hu.
 Qed.
 
+(** ** RemoveFabric on session [s] *)
+Lemma remove_fabric_inv : forall st s i,
+  Inv st -> In s (st_sess st) -> usable s = true -> Inv (fst (remove_fabric repaired st s i)).
+Proof.
+  intros st s i H Hin Hu. unfold remove_fabric.
+  destruct (negb (allowed st s)); [exact H|].
+  destruct (i =? 0); [exact H|].
+  destruct (fget i (st_fabs st)) as [fb|] eqn:G; [|exact H].
+  cbn [fst]. apply drop_bound_inv; sp.
+  - apply TInv_fdel. apply Inv_TInv; exact H.
+  - intros x Hx. apply In_fdel in Hx. destruct Hx as [Hx Hne].
+    apply live_fdel; [apply (inv_kv _ H); exact Hx|exact Hne].
+  - apply SInv_rff; [|apply Inv_SInv; exact H].
+    destruct (s_fab s =? i); [|apply keep_unres_none].
+    apply keep_unres_ctx; [apply (inv_sid _ H)|exact Hin|exact Hu].
+  - intros x Hx Hne. apply In_recs_drop in Hx. destruct Hx as [Hx _].
+    apply live_fdel; [apply (inv_recs _ H); exact Hx|exact Hne].
+  - intros x Hx Hne. apply live_fdel; [apply (inv_subs _ H); exact Hx|exact Hne].
+Qed.
+
+(** ** The reporter's purge phase, and a subscription committed late *)
+Lemma purge_inv : forall st, Inv st -> Inv (purge st).
+Proof.
+  intros st H. unfold purge. apply Inv_build; sp.
+  - apply Inv_TInv; exact H.
+  - apply (inv_kv _ H).
+  - apply Inv_SInv; exact H.
+  - apply (inv_recs _ H).
+  - apply (inv_kvrecs _ H).
+  - intros u Hu. apply filter_In in Hu. apply (inv_subs _ H). tauto.
+Qed.
+
+Lemma commit_sub_inv : forall st sid,
+  Inv st ->
+  (forall x, sget sid (st_sess st) = Some x -> s_exp x = true ->
+             has_fab (st_fabs st) (s_fab x) = false) ->
+  Inv (commit_sub st sid).
+Proof.
+  intros st sid H Hk. unfold commit_sub.
+  destruct (sget sid (st_sess st)) as [x|] eqn:G; [|exact H].
+  destruct (Nat.leb _ _); [exact H|]. unfold purge. apply Inv_build; sp.
+  - apply Inv_TInv; exact H.
+  - apply (inv_kv _ H).
+  - apply Inv_SInv; exact H.
+  - apply (inv_recs _ H).
+  - apply (inv_kvrecs _ H).
+  - intros u Hu. apply filter_In in Hu. destruct Hu as [Hu Hf]. apply in_app_iff in Hu.
+    destruct Hu as [Hu|[<-|[]]]; [apply (inv_subs _ H); exact Hu|]. cbn [u_fab u_inc] in *.
+    destruct (sget_In _ _ _ G) as [Hin _].
+    destruct (s_exp x) eqn:He.
+    + rewrite (Hk x eq_refl He) in Hf. discriminate Hf.
+    + apply (inv_sess _ H); [exact Hin|exact He|]. intro E0. rewrite E0 in Hf.
+      unfold has_fab in Hf. rewrite (inv_idx0 _ H) in Hf. discriminate Hf.
+Qed.
+
+(** a CASE session that was usable: after an expiry that keeps it, the session of that name
+    is unchanged or (expired) sits on the index whose fabric the expiry has just deleted *)
+Lemma rp_same : forall keep l s x,
+  NoDup (map s_id l) -> In s l -> is_case s = true ->
+  In x (remove_pase keep l) -> s_id x = s_id s -> x = s.
+Proof.
+  intros keep l s x Hd Hs Hc Hx Hid. apply In_remove_pase_pase in Hx.
+  destruct Hx as (y & Hy & [->|[-> Hp]]).
+  - apply (NoDup_map_In_inj s_id l); auto.
+  - rewrite set_exp_id in Hid. assert (y = s) by (apply (NoDup_map_In_inj s_id l); auto). subst y.
+    unfold is_case in Hc. unfold is_pase in Hp. destruct (s_mode s); discriminate.
+Qed.
+
+Lemma expire_kept : forall st s,
+  Inv st -> In s (st_sess st) -> usable s = true -> is_case s = true ->
+  forall x, In x (st_sess (expire repaired st (Some (s_id s)))) -> s_id x = s_id s ->
+    s_exp x = true -> has_fab (st_fabs (expire repaired st (Some (s_id s)))) (s_fab x) = false.
+Proof.
+  intros st s H Hs Hu Hc. destruct (usable_flags _ Hu) as [Hexp _].
+  pose proof (inv_sid _ H) as Hd. unfold expire.
+  destruct (st_fs st) as [|f fl].
+  { intros x Hx Hid He. assert (x = s) by (apply (NoDup_map_In_inj s_id (st_sess st)); auto). congruence. }
+  destruct (f =? 0).
+  { sp. intros x Hx Hid He. rewrite (rp_same _ _ _ _ Hd Hs Hc Hx Hid) in He. congruence. }
+  cbv zeta. destruct (fget f (st_kvfabs st)) as [kf|].
+  { sp. intros x Hx Hid He. rewrite (rp_same _ _ _ _ Hd Hs Hc Hx Hid) in He. congruence. }
+  cbn [drop_bound fx_drop_bound fx_expire_sessions repaired]. sp. intros x Hx Hid He.
+  apply In_remove_for_fabric_keep in Hx. destruct Hx as (y & Hy & [[-> Hne]|[-> Ho]]).
+  - rewrite (rp_same _ _ _ _ Hd Hs Hc Hy Hid) in He. congruence.
+  - rewrite set_exp_id in Hid. pose proof (rp_same _ _ _ _ Hd Hs Hc Hy Hid) as ->.
+    destruct (keep_if_on f (Some (s_id s)) (remove_pase (Some (s_id s)) (st_sess st))) as [k|] eqn:Ek;
+      [|discriminate Ho].
+    cbn [opt_is] in Ho. apply N.eqb_eq in Ho. subst k.
+    destruct (keep_if_on_some _ _ _ _ Ek) as (s' & Hs' & Hid' & Hf').
+    pose proof (rp_same _ _ _ _ Hd Hs Hc Hs' Hid') as ->.
+    cbn [set_exp s_fab]. rewrite Hf'. unfold has_fab. rewrite fget_fdel_eq. reflexivity.
+Qed.
+
+Lemma remove_fabric_kept : forall st s i,
+  Inv st -> In s (st_sess st) -> usable s = true ->
+  forall x, In x (st_sess (fst (remove_fabric repaired st s i))) -> s_id x = s_id s ->
+    s_exp x = true -> has_fab (st_fabs (fst (remove_fabric repaired st s i))) (s_fab x) = false.
+Proof.
+  intros st s i H Hs Hu. destruct (usable_flags _ Hu) as [Hexp _].
+  pose proof (inv_sid _ H) as Hd.
+  assert (Hsame : forall x, In x (st_sess st) -> s_id x = s_id s -> s_exp x = true ->
+                    has_fab (st_fabs st) (s_fab x) = false).
+  { intros x Hx Hid He. assert (x = s) by (apply (NoDup_map_In_inj s_id (st_sess st)); auto). congruence. }
+  unfold remove_fabric.
+  destruct (negb (allowed st s)); [exact Hsame|].
+  destruct (i =? 0); [exact Hsame|].
+  destruct (fget i (st_fabs st)) as [fb|]; [|exact Hsame].
+  cbn [fst drop_bound fx_drop_bound repaired]. sp. intros x Hx Hid He.
+  apply In_remove_for_fabric_keep in Hx. destruct Hx as (y & Hy & [[-> Hne]|[-> Ho]]).
+  - assert (y = s) by (apply (NoDup_map_In_inj s_id (st_sess st)); auto). congruence.
+  - rewrite set_exp_id in Hid.
+    assert (y = s) by (apply (NoDup_map_In_inj s_id (st_sess st)); auto). subst y.
+    destruct (s_fab s =? i) eqn:E; [|discriminate Ho]. apply N.eqb_eq in E.
+    cbn [set_exp s_fab]. rewrite E. unfold has_fab. rewrite fget_fdel_eq. reflexivity.
+Qed.
+
 Ltac core_eq := unfold same_core; sp; repeat split; reflexivity.
 
 Ltac inv_fields H :=
@@ -491,7 +621,7 @@ Ltac inv_fields H :=
 Theorem invariant_step : forall st o, Inv st -> Inv (fst (step st o)).
 Proof.
   intros st o H. unfold step.
-  destruct o as [sid|sid r|sid|sid|sid i| |sid|sid|r|i node|i|k| | | |sid k|sid| |r|k|sid|sid]; cbn [step_fx]; cbv zeta.
+  destruct o as [sid|sid r|sid|sid|sid i| |sid|sid|r|i node|i|k| | | |sid k|sid| |r|k|sid|sid|sid|sid i]; cbn [step_fx]; cbv zeta.
   - (* OArm *)
     destruct (sess_ctx st sid) as [s|] eqn:C; [|exact H].
     destruct (negb (allowed st s)); [exact H|].
@@ -520,20 +650,8 @@ Proof.
     + apply SInv_remove_pase. inv_fields H.
   - (* ORemove *)
     destruct (sess_ctx st sid) as [s|] eqn:C; [|exact H].
-    destruct (negb (allowed st s)); [exact H|].
-    destruct (i =? 0); [exact H|].
-    destruct (fget i (st_fabs st)) as [fb|] eqn:G; [|exact H].
-    cbn [fst]. apply drop_bound_inv; sp.
-    + apply TInv_fdel. inv_fields H.
-    + intros x Hx. apply In_fdel in Hx. destruct Hx as [Hx Hne].
-      apply live_fdel; [apply (inv_kv _ H); exact Hx|exact Hne].
-    + destruct (sess_ctx_some _ _ _ C) as (_ & Hu & Hin & _ & _).
-      apply SInv_rff; [|inv_fields H].
-      destruct (s_fab s =? i); [|apply keep_unres_none].
-      apply keep_unres_ctx; [apply (inv_sid _ H)|exact Hin|exact Hu].
-    + intros x Hx Hne. apply In_recs_drop in Hx. destruct Hx as [Hx _].
-      apply live_fdel; [apply (inv_recs _ H); exact Hx|exact Hne].
-    + intros x Hx Hne. apply live_fdel; [apply (inv_subs _ H); exact Hx|exact Hne].
+    destruct (sess_ctx_some _ _ _ C) as (_ & Hu & Hin & _ & _).
+    apply remove_fabric_inv; assumption.
   - (* OTimeout *)
     cbn [fst]. apply expire_inv; [exact H|apply keep_unres_none].
   - (* OArm0 *)
@@ -570,8 +688,7 @@ Proof.
   - (* ORestart *)
     cbn [fst]. apply boot_inv; exact H.
   - (* OReport *)
-    cbn [fst]. apply Inv_build; sp; try inv_fields H.
-    intros u Hu. apply filter_In in Hu. apply (inv_subs _ H). tauto.
+    cbn [fst]. apply purge_inv; exact H.
   - (* ORequest *)
     destruct (sess_ctx st sid) as [s|] eqn:C; [|exact H].
     destruct (s_fab s =? 0); [exact H|].
@@ -626,6 +743,25 @@ Proof.
     destruct (s_res s) eqn:Er; [|exact H]. cbn [fst].
     destruct (sget_In _ _ _ G) as [Hin _].
     apply new_record_inv; [apply release_inv; exact H|]. sp. apply (inv_res _ H); assumption.
+  - (* OSubscribeDue *)
+    destruct (sess_ctx st sid) as [s|] eqn:C; [|exact H].
+    destruct (sess_ctx_some _ _ _ C) as (_ & Hu & Hin & Hid & _).
+    destruct (negb (is_case s)) eqn:Ec; [exact H|]. apply negb_false_iff in Ec. cbn [fst].
+    apply commit_sub_inv.
+    + apply expire_inv; [exact H|]. apply keep_unres_ctx; [apply (inv_sid _ H)|exact Hin|exact Hu].
+    + intros x Gx He. destruct (sget_In _ _ _ Gx) as [Hx Hxid].
+      apply (expire_kept st s H Hin Hu Ec x Hx); [congruence|exact He].
+  - (* OSubscribeRemove *)
+    destruct (sess_ctx st sid) as [s|] eqn:C; [|exact H].
+    destruct (sess_ctx_some _ _ _ C) as (_ & Hu & Hin & Hid & _).
+    destruct (negb (is_case s)); [exact H|].
+    destruct (negb (can_view st s)); [exact H|].
+    pose proof (remove_fabric_inv st s i H Hin Hu) as H1.
+    pose proof (remove_fabric_kept st s i H Hin Hu) as Hk.
+    destruct (remove_fabric repaired st s i) as [st1 r1]. cbn [fst] in *.
+    apply commit_sub_inv; [exact H1|].
+    intros x Gx He. destruct (sget_In _ _ _ Gx) as [Hx Hxid].
+    apply (Hk x Hx); [congruence|exact He].
 Qed.
 
 Theorem invariant_exec : forall st ops, Inv st -> Inv (exec st ops).
@@ -664,6 +800,7 @@ Proof.
      | intros f Hf; in_cases; reflexivity
      | intros f g Hf Hg E; in_cases; cbn [f_inc f_idx] in *; try reflexivity; discriminate E
      | intros f Hf; in_cases; (eexists; split; [reflexivity|reflexivity])
+     | reflexivity
      | intros s Hs He Hn; in_cases; cbn [s_fab s_inc] in *;
        try (exfalso; apply Hn; reflexivity); (eexists; split; [reflexivity|reflexivity])
      | intros s Hs Hr; in_cases; try discriminate Hr
